@@ -262,7 +262,7 @@ def check(pid, tier, seed, a):
         json.dump(ev, fh, indent=1, default=str)
 
     # ---------------------------------------------------------------- report
-    for ln in lines:
+    for ln in dict.fromkeys(re.sub(r" \[(stand-in|obligation) [^\]]*\]$", "", x) for x in lines):
         print(ln)
     if a.verbose or violations or crashes or bindfail:
         for o in obls:
